@@ -122,6 +122,17 @@ def _depth(v):
 @st.composite
 def value_pairs(draw, alphabet):
     text = values.TEXT_SMALL if alphabet == 'quote-free' else SEP_TEXT
+    text = st.one_of(text, text, st.sampled_from(['a b', 'a  b', 'a\tb', 'a\nb', ' a', 'a ', '\t', ' ', '  ', 'a b ', '\n']))
+    if draw(st.integers(0, 40)) == 0:
+        # long values: two 1500-element lists / 6000-character strings differing only near the end
+        n = draw(st.integers(1200, 1600))
+        if draw(st.booleans()):
+            v = list(range(n))
+            v2 = list(range(n - 1)) + [n]
+        else:
+            v = 'x' * n * 4
+            v2 = 'x' * (n * 4 - 1) + 'y'
+        return {'values': True, 'alphabet': alphabet, 'v': v, 'v2': v2, 'long': True}
     base = values.json_values(text=text, max_leaves=8)
     v = draw(base)
     mode = draw(st.integers(0, 3))
